@@ -329,8 +329,5 @@ pub fn replay(r: &Value) -> bool {
     let t = |k: &str| r[k].as_array().unwrap().iter().map(|x| x.as_i64().unwrap()).collect::<Vec<i64>>();
     let mut rep = Report::new();
     check_input(&(t("f"), t("g"), t("F"), t("G")), "replay", &mut rep);
-    for v in &rep.violations {
-        println!("{}: {}", v.signature, v.detail);
-    }
-    rep.violations.is_empty()
+    crate::util::print_replay(&rep)
 }
